@@ -46,7 +46,8 @@ def run_case(job):
         feeders.append(ja)
     jx = pp.create_junction(net, 5.0, 325.0, index=2)
     js = pp.create_junction(net, 5.0, 325.0, index=90)
-    pp.create_heat_exchanger(net, jm, jx, qext_w=float(x["q"]), inner_diameter_mm=100.0)
+    ha, hb = (jx, jm) if x["rev"] else (jm, jx)                 # with rev the exchanger, too, is declared against the flow
+    pp.create_heat_exchanger(net, ha, hb, qext_w=float(x["q"]), inner_diameter_mm=100.0)
     pp.create_pipe_from_parameters(net, js, jx, 0.05, 100.0, k_mm=0.1, u_w_per_m2k=0.0)          # declared against the flow
     pp.create_sink(net, js, float(M))
     case = {"id": job["id"], "x": x, "outcome": "", "obs": {"feed": [], "tmix": [1, 0], "tout": [1, 0], "tsink": [1, 0], "msum": [1, 0]}}
@@ -61,7 +62,7 @@ def run_case(job):
         return case
     tj = net.res_junction.t_k
     case["obs"] = {"feed": [mk(tj.loc[j]) for j in feeders], "tmix": mk(tj.loc[jm]), "tout": mk(tj.loc[jx]), "tsink": mk(tj.loc[js]),
-                   "msum": [0, int(round(float(net.res_heat_exchanger.mdot_from_kg_per_s.iloc[0]) * 1e6))]}
+                   "msum": [0, int(round(abs(float(net.res_heat_exchanger.mdot_from_kg_per_s.iloc[0])) * 1e6))]}
     return case
 
 
